@@ -535,8 +535,8 @@ EVAL = {
     },
     "C10": {
         "invariants": ["Inv_C10", "StepBound"],
-        "exh": {"quick": [("EU_C10_DocsS", 1, 1), ("EU_C10_DocsE", 1, 1), ("EU_C10_Hist", 2, 2, "EU_C10_HistRange")],
-                "thorough": [("EU_C10_Docs", 1, 1), ("EU_C10_DocsE", 1, 1), ("EU_C10_Hist", 2, 2, "EU_C10_HistRange")]},
+        "exh": {"quick": [("EU_C10_DocsS", 1, 1), ("EU_C10_DocsE", 1, 1), ("EU_C10_DocsN", 1, 1), ("EU_C10_Hist", 2, 2, "EU_C10_HistRange")],
+                "thorough": [("EU_C10_Docs", 1, 1), ("EU_C10_DocsE", 1, 1), ("EU_C10_DocsN", 1, 1), ("EU_C10_Hist", 2, 2, "EU_C10_HistRange")]},
         "mutations": [{"mutation": "NoIdCache", "docs": "EU_C10_DocsS", "stages": (1, 1), "expect": ["Inv_C10"]},
                       {"mutation": "EvalLeaksPlaceholder", "docs": "EU_C10_DocsE", "stages": (1, 1), "expect": ["Inv_C10"]}],
         "gen": _gen_eval, "random": {"quick": 1500, "thorough": 25000}, "max_stages": 2,
